@@ -404,7 +404,8 @@ shape("ISModelAbs", {}, methods={
         "<abstract>", "ISModelAbs.batch_evaluate_log_prior",
         params={"x": INS_ARR, "unit_hypercube": "Bool"}, trusted=True,
         trusted_reason="prior values (C10)", returns="Seq(Real)",
-        ensures=["len(result) == len(x)"]),
+        ensures=["len(result) == len(x)",
+                 "forall(i, 0, len(x), result[i] == LPr(x[i]['x']))"]),
     "batch_evaluate_log_prior_unit_hypercube": Contract(
         "<abstract>", "ISModelAbs.batch_evaluate_log_prior_unit_hypercube",
         params={"x": INS_ARR}, trusted=True,
@@ -454,6 +455,14 @@ def drawn_ok(S, Q, n):
     ]
 
 
+def prior_ok(S, n):
+    """C09: a drawn point carries the model's log-prior and it is finite
+    (points where the prior vanishes are discarded, not handed to the
+    likelihood)"""
+    return [f"forall(i, 0, {n}, {S}[i]['logP'] == LPr({S}[i]['x']))",
+            f"forall(i, 0, {n}, isfinite({S}[i]['logP']))"]
+
+
 contract(
     IP, "ImportanceFlowProposal.draw", props=["C03", "C08", "C09"],
     self_shape="ISProposalC03", log_domain=True,
@@ -467,10 +476,11 @@ contract(
     loops={0: {
         "inv": ["n_accepted >= 0", "len(samples) == n_accepted",
                 "len(log_q_samples) == n_accepted", "n_draw >= 1"]
-        + drawn_ok("samples", "log_q_samples", "n_accepted"),
+        + drawn_ok("samples", "log_q_samples", "n_accepted")
+        + prior_ok("samples", "n_accepted"),
     }},
     ensures=["len(result[0]) == n and len(result[1]) == n"]
-    + drawn_ok("result[0]", "result[1]", "n"),
+    + drawn_ok("result[0]", "result[1]", "n") + prior_ok("result[0]", "n"),
 )
 
 # ---- re-evaluating stored samples (used when resuming: the density table is
@@ -798,3 +808,76 @@ for _c in _ALL.values():
             "ImportanceFlowProposal.compute_meta_proposal_samples",
             "ImportanceFlowProposal.draw"):
         _c.replay = {"module": "replay.c03_ins", "func": "ins_replay"}
+
+# ---- the real inverse_rescale: from_prime, optional clipping, conversion ----
+# `draw` (and every other caller) uses it as the map Ri.  That is what the
+# real body does when clipping is off (the default).  With clip=True a point
+# the flow generates outside the unit hypercube is moved onto its boundary
+# AFTER its density was fixed: the densities `draw` attaches (evaluated at the
+# un-clipped x_prime) are then not those of the returned point.
+shape("ISProposalInv", {"clip": "Bool", "model": "Obj(ISModelNames)"},
+      cls="ImportanceFlowProposal", methods={
+    "from_prime": Contract(
+        "<abstract>", "ImportanceFlowProposal.from_prime",
+        params={"x_prime": XT}, trusted=True,
+        trusted_reason="sigmoid / identity as the abstract map Ri with "
+        "log-Jacobian RiJ (C07)", returns="Tuple(Seq(Sort(P)),Seq(Real))",
+        ensures=["len(result[0]) == len(x_prime) and "
+                 "len(result[1]) == len(x_prime)",
+                 "forall(i, 0, len(x_prime), result[0][i] == Ri(x_prime[i]) "
+                 "and result[1][i] == RiJ(x_prime[i]))"]),
+})
+shape("ISModelNames", {"names": "Any"})
+LPF_ = "nessai/livepoint.py"
+contract(LPF_, "numpy_array_to_live_points", variant_name="c03",
+         props=["C03", "C08"], trusted=True, verify=False,
+         trusted_reason="unstructured -> structured conversion keeps each "
+         "point (the other fields take their defaults: C18)",
+         params={"array": "Seq(Sort(P))", "names": "Any"}, returns=INS_ARR,
+         ensures=["len(result) == len(array)",
+                  "forall(i, 0, len(array), result[i]['x'] == array[i])"])
+INV_ENS = ["len(result[0]) == len(x_prime) and len(result[1]) == len(x_prime)",
+           "forall(i, 0, len(x_prime), result[0][i]['x'] == Ri(x_prime[i]) "
+           "and result[1][i] == RiJ(x_prime[i]))"]
+for _v, _req in (("c03-noclip", "not self.clip"), ("c03-clip", "self.clip")):
+    contract(
+        IP, "ImportanceFlowProposal.inverse_rescale", variant_name=_v,
+        props=["C03", "C08"], self_shape="ISProposalInv", log_domain=True,
+        params={"x_prime": XT}, requires=[_req],
+        returns=f"Tuple({INS_ARR},Seq(Real))", ensures=INV_ENS,
+        ident_name=f"ImportanceFlowProposal.inverse_rescale#{_v}",
+        replay=({"module": "replay.custom", "func": "script_probe",
+                 "script": "c08_clip.py", "args": [1]} if _v == "c03-clip"
+                else {"module": "replay.custom", "func": "script_probe",
+                      "script": "c08_clip.py", "args": [0]}),
+    )
+
+# ---- the constructor: the clipping option is stored as given and is OFF
+# ---- unless asked for (the contracts above are for clip=False; clip=True is
+# ---- the known finding of inverse_rescale#c03-clip)
+shape("ISModelDims", {"names": "Any", "dims": "Int"})
+shape("ISProposalNew", {}, cls="ImportanceFlowProposal")
+_INIT_P = {"model": "Obj(ISModelDims)", "output": "Any",
+           "flow_config": "None", "training_config": "None",
+           "reparameterisation": "Str", "weighted_kl": "Bool",
+           "reset_flow": "Bool", "plot_training": "Bool"}
+_INIT_ENS = ["self.level_count == -1", "len(self._weights) == 1",
+             "self._weights[-1] == 1",
+             "self.reparameterisation == reparameterisation",
+             "self.model is model"]
+contract(
+    IP, "ImportanceFlowProposal.__init__", props=["C03", "C08"],
+    self_shape="ISProposalNew", params=dict(_INIT_P, clip="Bool"),
+    opaque_callees=["update_flow_config", "get_dtype"],
+    ensures=_INIT_ENS + ["self.clip == clip"],
+)
+contract(
+    IP, "ImportanceFlowProposal.__init__", variant_name="defaults",
+    props=["C03", "C08"], self_shape="ISProposalNew", params=_INIT_P,
+    opaque_callees=["update_flow_config", "get_dtype"],
+    ident_name="ImportanceFlowProposal.__init__#defaults",
+    replay={"module": "replay.custom", "func": "script_probe",
+            "script": "c08_clip.py", "args": ["default"]},
+    # `clip` not given: the signature's default applies
+    ensures=_INIT_ENS + ["not self.clip"],
+)
